@@ -11,6 +11,7 @@ Every theorem holds for ALL missed-set oracles `mc.missed`, all machines, maps, 
 both verification modes.
 -/
 import RigModel.Lemmas.C09Loop
+import Mathlib.Tactic.IntervalCases
 set_option linter.unusedSimpArgs false
 set_option linter.unusedVariables false
 
@@ -56,6 +57,10 @@ theorem fill_wellformed (c : Ctl) (u : App) (n base flags : Nat)
     exact decode_ffcs rm (hmask rm hrm)
   · obtain ⟨h1, h2, h3⟩ := ffdPkts_sizes pid c.buf hb0 _ _ _ _ q hq
     exact ⟨h1, h2, h3 hb4 hi4⟩
+
+/-- beyond the domain: with 256 blocks the count spills into the id field - the start packet of id 2
+announces id 3 and 0 blocks (known finding `ffs-block-count-overflow`) -/
+theorem block_count_overflow_example : decode (ffsReq 2 256) = .ffs 3 0 := by decide
 
 /-- **a well-formed fill loads exactly the selected cores of the chips that take part** (machine
 specification): after the packets of `fillPkts` a core holds (wait or run by the flag, app id,
@@ -251,5 +256,128 @@ theorem resend_exact (mc : MCfg) (c : Ctl) (apps : List App) (hv : Valid mc c ap
     · rfl
     · split <;> rfl
   rw [hsent]; exact hs
+
+/-! ### instances: non-vacuity of the hypotheses, and the counterexamples without `PreClean` -/
+
+/-- one chip (0, 0); `allMiss` decides whether the chip misses every fill -/
+def mcE (allMiss : Bool) : MCfg :=
+  { chips := [(0, 0)], missed := fun _ _ _ => allMiss, sdramSys := 1610612736, vcpuBase := 3842011136 }
+/-- region word 0x00030001 = level 3, base (0, 0), block 0: chip (0, 0) only; mask 2 = core 1 -/
+def ctlE (useCount wait : Bool) : Ctl :=
+  { buf := 4, compress := fun t => if wantsT t 0 0 1 then [(196609, 2)] else [], appId := 30, nTries := 2,
+    wait := wait, useCount := useCount }
+def rxE : Rx := { idx := 0, pid := 0, nBlocks := 0, got := 0, next := 0, regs := [], data := [], ok := false }
+/-- one binary of 8 bytes (two blocks) for core 1 of chip (0, 0) -/
+def appsE : List App := [{ name := 0, image := [1, 2, 3, 4, 5, 6, 7, 8], targets := [(0, 0, [1])] }]
+/-- all cores idle except core `p0` of chip (0, 0), which waits under app id `app0` with another binary -/
+def initE (p0 app0 : Nat) : Sim :=
+  { m := { core := fun x y p => if x = 0 ∧ y = 0 ∧ p = p0 then ⟨stWait, app0, [9]⟩ else ⟨stIdle, 0, []⟩,
+           rx := rxE, fills := 0 }, nn := 126, trace := [] }
+
+theorem validE (allMiss useCount wait : Bool) : Valid (mcE allMiss) (ctlE useCount wait) appsE where
+  hb := by show 4 ≤ 4; decide
+  hb4 := by show 4 ∣ 4; decide
+  hbmax := by show 4 ≤ 1024; decide
+  happ := by show 30 < 256; decide
+  hv := by show 3842011136 < 4294967296; decide
+  himg := by
+    intro a ha
+    simp only [appsE, List.mem_singleton] at ha
+    subst ha
+    show 4 ∣ 8 ∧ 8 ≤ 255 * 4
+    decide
+  hchips := by show [((0 : Nat), (0 : Nat))].Nodup; decide
+  hin := by
+    intro a ha x y p hw
+    simp only [appsE, List.mem_singleton] at ha
+    subst ha
+    simp only [wants, List.any_cons, List.any_nil, Bool.or_false, Bool.and_eq_true, beq_iff_eq,
+      List.contains_iff_mem, List.mem_singleton] at hw
+    obtain ⟨⟨rfl, rfl⟩, rfl⟩ := hw
+    exact ⟨by simp [mcE], by decide⟩
+  hdisj := by
+    intro a ha b hb _ _ _ _ _
+    simp only [appsE, List.mem_singleton] at ha hb
+    rw [ha, hb]
+  hcomp := by
+    intro t ⟨a, ha, hsub⟩
+    simp only [appsE, List.mem_singleton] at ha
+    subst ha
+    have honly : ∀ p, p ≠ 1 → wantsT t 0 0 p = false := by
+      intro p hp
+      cases h : wantsT t 0 0 p with
+      | false => rfl
+      | true =>
+        have := hsub 0 0 p h
+        simp only [wants, List.any_cons, List.any_nil, Bool.or_false, Bool.and_eq_true, beq_iff_eq,
+          List.contains_iff_mem, List.mem_singleton] at this
+        exact absurd this.2 hp
+    constructor
+    · intro rm hrm
+      simp only [ctlE] at hrm
+      split at hrm
+      · simp only [List.mem_singleton] at hrm; subst hrm; decide
+      · simp at hrm
+    · intro x y p hc hp
+      simp only [mcE, List.mem_singleton, Prod.mk.injEq] at hc
+      obtain ⟨rfl, rfl⟩ := hc
+      simp only [ctlE]
+      by_cases hp1 : p = 1
+      · subst hp1
+        cases h : wantsT t 0 0 1 with
+        | false => simp [selectsCore]
+        | true => simp only [if_true]; decide
+      · rw [honly p hp1]
+        split
+        · interval_cases p <;> first | exact absurd rfl hp1 | decide
+        · simp [selectsCore]
+
+
+theorem precleanE : PreClean (initE 5 31).m appsE 30 := by
+  intro x y p hst
+  simp only [initE] at hst ⊢
+  by_cases h : x = 0 ∧ y = 0 ∧ p = 5
+  · obtain ⟨rfl, rfl, rfl⟩ := h
+    exact ⟨by decide, by decide⟩
+  · rw [if_neg h] at hst
+    exact absurd hst (by decide)
+
+/-- the hypotheses of `load_sound` are satisfiable with a non-trivial run: a normal return after a
+complete two-block fill, in count mode with the start signal -/
+example : Valid (mcE false) (ctlE true false) appsE ∧ PreClean (initE 5 31).m appsE 30 ∧
+    (loadApplication (mcE false) (ctlE true false) (initE 5 31) appsE).outcome = .ok ∧
+    (loadApplication (mcE false) (ctlE true false) (initE 5 31) appsE).sim.m.core 0 0 1 =
+      ⟨stRun, 30, [1, 2, 3, 4, 5, 6, 7, 8]⟩ :=
+  ⟨validE _ _ _, precleanE, by decide, by decide⟩
+
+/-- the hypotheses of `load_error_exact` / `attempts_bounded` are satisfiable with a run that ends in
+the error after exactly n_tries + 1 = 3 attempts (the chip misses every fill; read-back mode) -/
+example : Valid (mcE true) (ctlE false true) appsE ∧ PreClean (initE 5 31).m appsE 30 ∧
+    (loadApplication (mcE true) (ctlE false true) (initE 5 31) appsE).outcome = .loadingError appsE ∧
+    (loadApplication (mcE true) (ctlE false true) (initE 5 31) appsE).sent.length = 3 :=
+  ⟨validE _ _ _, precleanE, by decide, by decide⟩
+
+/-- **count shortcut fooled by a stale waiter** (no `PreClean`): every other hypothesis holds; core 5
+of the chip already waits under the app id, the chip misses every fill; in count mode
+`load_application` returns normally after ONE attempt although the requested core 1 is still idle -/
+theorem count_shortcut_counterexample :
+    Valid (mcE true) (ctlE true true) appsE ∧ ¬ PreClean (initE 5 30).m appsE 30 ∧
+    (loadApplication (mcE true) (ctlE true true) (initE 5 30) appsE).outcome = .ok ∧
+    (loadApplication (mcE true) (ctlE true true) (initE 5 30) appsE).sent.length = 1 ∧
+    (loadApplication (mcE true) (ctlE true true) (initE 5 30) appsE).sim.m.core 0 0 1 = ⟨stIdle, 0, []⟩ ∧
+    postOkCore appsE 30 true ((initE 5 30).m.core 0 0 1)
+      ((loadApplication (mcE true) (ctlE true true) (initE 5 30) appsE).sim.m.core 0 0 1) 0 0 1 = false := by
+  refine ⟨validE _ _ _, fun h => (h 0 0 5 (by decide)).1 (by decide), by decide, by decide, by decide, by decide⟩
+
+/-- **read-back fooled by a waiting requested core** (no `PreClean`): the requested core 1 already
+waits (with another binary), the chip misses every fill; in read-back mode `load_application`
+returns normally although core 1 still holds the old binary -/
+theorem readback_counterexample :
+    Valid (mcE true) (ctlE false true) appsE ∧ ¬ PreClean (initE 1 30).m appsE 30 ∧
+    (loadApplication (mcE true) (ctlE false true) (initE 1 30) appsE).outcome = .ok ∧
+    (loadApplication (mcE true) (ctlE false true) (initE 1 30) appsE).sim.m.core 0 0 1 = ⟨stWait, 30, [9]⟩ ∧
+    postOkCore appsE 30 true ((initE 1 30).m.core 0 0 1)
+      ((loadApplication (mcE true) (ctlE false true) (initE 1 30) appsE).sim.m.core 0 0 1) 0 0 1 = false := by
+  refine ⟨validE _ _ _, fun h => (h 0 0 1 (by decide)).1 (by decide), by decide, by decide, by decide⟩
 
 end Rig.C09
